@@ -3,12 +3,13 @@
 # Applies a seeded change to /repo, runs the quick checks of the given properties, undoes the change.
 set -u
 patch="$1"; shift
-cd /verif
-if ! git -C /repo apply --check "$patch" 2>/dev/null; then
-  if git -C /repo apply --check --3way "$patch" 2>/dev/null; then :; else echo "RESULT patch=$patch DOES-NOT-APPLY"; exit 3; fi
+REPO=${VERIF_REPO:-/repo}
+cd "${VERIF_DIR:-/verif}"
+if ! git -C "$REPO" apply --check "$patch" 2>/dev/null; then
+  if git -C "$REPO" apply --check --3way "$patch" 2>/dev/null; then :; else echo "RESULT patch=$patch DOES-NOT-APPLY"; exit 3; fi
 fi
-git -C /repo apply "$patch" || { echo "RESULT patch=$patch APPLY-FAILED"; exit 3; }
-trap 'git -C /repo apply -R "$patch" 2>/dev/null || git -C /repo checkout -- . ; git -C /repo status --short | head -3' EXIT
+git -C "$REPO" apply "$patch" || { echo "RESULT patch=$patch APPLY-FAILED"; exit 3; }
+trap 'git -C "$REPO" apply -R "$patch" 2>/dev/null || git -C "$REPO" checkout -- . ; git -C "$REPO" status --short | head -3' EXIT
 for p in "$@"; do
   t0=$(date +%s)
   out=$(VERIF_SEED=${VERIF_SEED:-1} ./check "$p" ${TIER:-quick} 2>&1)
@@ -20,4 +21,4 @@ for p in "$@"; do
   [ -n "$v" ] && echo "   $d"
   [ $code = 2 ] && echo "$out" | tail -8
 done
-rm -rf /verif/replays
+rm -rf replays
